@@ -15,7 +15,14 @@ def run(chk, tmp, replay=None):
     lines = ["SPECIFICATION Spec", "CONSTANTS"]
     for k, v in m.items():
         lines.append(f"  {k} {'<-' if k in ('OutSets', 'DepSets', 'DeclSets') else '='} {v}")
-    lines += ["  OutFile <- OutFileC"] + (["INVARIANTS NeighboursDiffer"] if chk.tier != "quick" else []) + ["CHECK_DEADLOCK FALSE"]
+    lines += ["  OutFile <- OutFileC", "CHECK_DEADLOCK FALSE"]
+    if chk.tier != "quick":
+        # the per-state neighbour theorem is checked on the smaller universe (it costs ~150 encodings per state)
+        l2 = ["SPECIFICATION Spec", "CONSTANTS"] + [f"  {k} {'<-' if k in ('OutSets', 'DepSets', 'DeclSets') else '='} {v}" for k, v in QUICK.items()]
+        l2 += ["  OutFile <- NoOutC", "INVARIANTS NeighboursDiffer", "CHECK_DEADLOCK FALSE"]
+        r2 = core.tlc(os.path.join(tmp, "tlc_nb"), "KeyEncodingMC.tla", "k.cfg", timeout=3000, files={"k.cfg": "\n".join(l2) + "\n"}, heap="16g")
+        core.tlc_must_pass(r2, "KeyEncoding neighbours")
+        chk.add_tlc("KeyEncoding: NeighboursDiffer in every state of the smaller universe", r2)
     wd = os.path.join(tmp, "tlc")
     res = core.tlc(wd, "KeyEncodingMC.tla", "k.cfg", timeout=3000, files={"k.cfg": "\n".join(lines) + "\n"}, heap="16g")
     core.tlc_must_pass(res, "KeyEncoding")
